@@ -10,6 +10,8 @@ REQUIRED = [
     "DaeVerif.C09.Props.singleflight_result_reaches_every_waiter",
     "DaeVerif.C09.Props.join_while_flight_runs_starts_no_resolution",
     "DaeVerif.C09.Props.answers_come_from_accepted_upstream_messages",
+    "DaeVerif.C09.Props.reask_is_bounded",
+    "DaeVerif.C09.Props.malformed_query_touches_nothing",
     "DaeVerif.C09.Props.udp_id_match",
     "DaeVerif.C09.Props.udp_single_call",
     "DaeVerif.C09.Props.udp_flood_discards_socket",
@@ -22,6 +24,8 @@ REQUIRED = [
     "DaeVerif.C09.Props.retired_forwarder_closed_when_quiescent",
     "DaeVerif.C09.Props.enduse_split_closes_under_new_user",
     "DaeVerif.C09.Props.idle_evict_direct_close_under_user",
+    "DaeVerif.C09.Props.every_forwarder_closed_at_most_once_never_under_an_exchange",
+    "DaeVerif.C09.Props.no_forwarder_leaked_when_quiescent",
 ]
 
 STREAMS = [
@@ -30,6 +34,7 @@ STREAMS = [
     ("c09ctl", "TestVerifC09Ctl"),
 ]
 SCHED_STREAMS = [
+    ("c09loop", "TestVerifC09Loop"),
     ("c09sched", "TestVerifC09Sched"),
     ("c09pipe", "TestVerifC09Pipe"),
 ]
@@ -46,21 +51,31 @@ HOOK_NAMES = [
 # complete run produces (quick seed 1: udp 78 k, fwd 82 k, ctl 32 k, sched 87 k, pipe 24 k op lines, 300 UDP-path
 # rounds, 1 080 writer rendezvous, 417 coalesce-uncached scenarios; thorough about 33 times that).
 FLOORS = {
-    "quick": {"lines": {"c09udp": 50000, "c09fwd": 55000, "c09ctl": 20000, "c09sched": 60000, "c09pipe": 16000},
+    "quick": {"lines": {"c09udp": 50000, "c09fwd": 55000, "c09ctl": 20000, "c09sched": 60000, "c09pipe": 16000, "c09loop": 70000},
               "counters": {"c09ctl": {"ctl.udppath.rounds-completed": 295, "ctl.writers.rendezvous": 500,
                                       "ctl.scenario.coalesce-uncached": 200, "ctl.scenario.optimistic-cache": 300,
                                       "ctl.op.respell": 10, "ctl.scenario.qtypes.64+65": 200, "ctl.att.cname-first": 300,
                                       "ctl.udppath.big.rounds-completed": 36, "ctl.fwdlife.creation-race.rounds-completed": 36,
-                                      "ctl.fwdlife.retire-while-blocked": 100},
+                                      "ctl.fwdlife.retire-while-blocked": 100,
+                                      "ctl.scenario.response-routing": 350, "ctl.rr.resolve.levels=2": 130, "ctl.rr.resolve.levels=3": 45,
+                                      "ctl.rr.third-level-failed-or-too-deep": 15, "ctl.rr.reasked-and-answered": 50,
+                                      "ctl.client.questions=2": 70, "ctl.client.questions=0": 35},
                            "c09pipe": {"pipe.recv.held": 1000, "pipe.cancel": 400, "pipe.closeswap": 600, "pipe.writefail": 150, "pipe.abort-before-write": 150},
+                           "c09loop": {"loop.at.b5": 2000, "loop.at.e2r": 900, "loop.at.factory": 6000, "loop.ret.retired-twice": 400,
+                                       "loop.at.r3": 2000},
                            "c09sched": {"sched.at.e2r": 150, "sched.at.b5": 400}}},
-    "thorough": {"lines": {"c09udp": 1700000, "c09fwd": 1600000, "c09ctl": 700000, "c09sched": 1900000, "c09pipe": 560000},
+    "thorough": {"lines": {"c09udp": 1700000, "c09fwd": 1600000, "c09ctl": 700000, "c09sched": 1900000, "c09pipe": 560000, "c09loop": 1100000},
                  "counters": {"c09ctl": {"ctl.udppath.rounds-completed": 1480, "ctl.writers.rendezvous": 15000,
                                          "ctl.scenario.coalesce-uncached": 7000, "ctl.scenario.optimistic-cache": 10000,
                                          "ctl.op.respell": 300, "ctl.scenario.qtypes.64+65": 6000, "ctl.att.cname-first": 10000,
                                          "ctl.udppath.big.rounds-completed": 270, "ctl.fwdlife.creation-race.rounds-completed": 360,
-                                         "ctl.fwdlife.retire-while-blocked": 3000},
+                                         "ctl.fwdlife.retire-while-blocked": 3000,
+                                         "ctl.scenario.response-routing": 12000, "ctl.rr.resolve.levels=2": 4500, "ctl.rr.resolve.levels=3": 1500,
+                                         "ctl.rr.third-level-failed-or-too-deep": 500, "ctl.rr.reasked-and-answered": 1800,
+                                         "ctl.client.questions=2": 2500, "ctl.client.questions=0": 1200},
                               "c09pipe": {"pipe.recv.held": 40000, "pipe.cancel": 15000, "pipe.closeswap": 25000, "pipe.writefail": 6000, "pipe.abort-before-write": 6000},
+                              "c09loop": {"loop.at.b5": 32000, "loop.at.e2r": 14000, "loop.at.factory": 96000, "loop.ret.retired-twice": 6400,
+                                          "loop.at.r3": 32000},
                               "c09sched": {"sched.at.e2r": 6000, "sched.at.b5": 15000}}},
 }
 
@@ -93,6 +108,37 @@ def write_shim(ctx):
     return p
 
 
+# open-finding candidate: a query with an empty question section is not refused like one with two questions; its
+# upstream answer (to whatever question the upstream chose) is cached under the key of the root name and type 0
+QLESS_KEY = "c09-questionless-query-cached-under-root-key"
+
+
+_qless_reports = [0]
+
+
+def report(ctx, what, obj, key=None):
+    """ctx.report, except that the (one) finding about question-less queries is reported at most three times per
+    run: every later line of such a history differs from the model as well and would only repeat it"""
+    if key == QLESS_KEY:
+        _qless_reports[0] += 1
+        if _qless_reports[0] > 3:
+            return
+    ctx.report(what, obj, key=key)
+
+
+def qless_key(history):
+    """the finding key when the history (op lines since the last `C reset`) has a client whose query carries no
+    question - what follows in such a history on a tree without the repaired guard is that finding"""
+    for line in history[:1]:
+        head = line.split("  =>  ")[0].split()
+        if head[:2] == ["C", "reset"]:
+            for tok in head[3:]:
+                f = tok.split(":")
+                if len(f) > 7 and f[7] == "0":
+                    return QLESS_KEY
+    return None
+
+
 def oracle_ctl(ctx, ops, impl):
     """Property-level oracle evaluated directly on what the real controller wrote (independent of
     the model's outputs): every written reply carries the asking client's id and question (name, type,
@@ -111,7 +157,7 @@ def oracle_ctl(ctx, ops, impl):
             for tok in t[3:]:
                 f = tok.split(":")
                 clients.append({"id": int(f[0]), "n": int(f[1]), "sp": int(f[2]), "qt": int(f[3]), "scope": int(f[4]),
-                                "cls": int(f[6]) if len(f) > 6 else 1})
+                                "cls": int(f[6]) if len(f) > 6 else 1, "nq": int(f[7]) if len(f) > 7 else 1})
             continue
         if t[:2] == ["C", "respell"]:
             pending_respell = int(t[5])
@@ -135,14 +181,18 @@ def oracle_ctl(ctx, ops, impl):
                        {"op": op, "impl": im})
             continue
         m = re.search(r"out=wrote:id=(\d+),q=([^,]+),", im)
-        if m and t[1] in ("arrive", "refuse", "wake"):
+        if m and t[1] in ("arrive", "refuse", "wake", "malformed"):
             n_replies += 1
             c = clients[int(t[2])]
             rid, q = int(m.group(1)), m.group(2)
             qq = q.split(".")
             if rid != c["id"]:
-                ctx.report(f"reply to client {t[2]} carries id {rid}, the client asked with id {c['id']}",
-                           {"op": op, "impl": im, "clients": clients, "history": list(hist)})
+                report(ctx, f"reply to client {t[2]} carries id {rid}, the client asked with id {c['id']}",
+                       {"op": op, "impl": im, "clients": clients, "history": list(hist)}, key=qless_key(hist))
+            elif c["nq"] == 0:
+                if q != "-":
+                    report(ctx, f"reply to client {t[2]}, whose query carried no question, carries question {q}",
+                           {"op": op, "impl": im, "clients": clients, "history": list(hist)}, key=QLESS_KEY)
             elif q == "-" or len(qq) not in (3, 4) or int(qq[0]) != c["n"] or int(qq[2]) != c["qt"] \
                     or (int(qq[3]) if len(qq) == 4 else 1) != c["cls"]:
                 ctx.report(f"reply to client {t[2]} carries question {q}, the client asked {c['n']}.{c['sp']}.{c['qt']} class {c['cls']}",
@@ -156,7 +206,8 @@ def oracle_ctl(ctx, ops, impl):
                 kn, kt, _ = k.split(".")
                 vq = v.split("/")[0].split(".")
                 if len(vq) != 3 or vq[0] != kn or vq[2] != kt:  # 3 parts = class IN: the cache holds class-IN answers only
-                    ctx.report(f"cache entry {e}: stored under a key it is not an answer to", {"op": op, "impl": im})
+                    report(ctx, f"cache entry {e}: stored under a key it is not an answer to",
+                           {"op": op, "impl": im, "history": list(hist)}, key=qless_key(hist))
     return n_replies
 
 
@@ -183,6 +234,33 @@ def oracle_fwd(ctx, ops, impl, label):
                 ctx.report(f"{label}: retired forwarder not closed after its last user returned", {"op": last[0], "impl": last[2]})
         f["quiet"] = f.get("if") == "0" and f.get("pc") == "idle"
         last = (op, f, im)
+
+
+def oracle_loop(ctx, ops, impl):
+    """every forwarder the controller created: Close() at most once, never while one of its exchanges runs, no
+    exchange after Close(); once every call has returned, every forwarder but the cached one is closed."""
+    hist = []
+    for op, im in zip(ops, impl):
+        if op.startswith("L reset "):
+            hist = []
+        hist.append(op + "  =>  " + im)
+        if op.startswith("L life "):
+            ctx.report("forwardWithDialArg / getOrCreateDnsForwarder / retire: " + op[7:].replace("_", " "),
+                       {"op": op, "history": list(hist)})
+            continue
+        m = re.search(r"fw=(\S*)", im)
+        if not m or not m.group(1):
+            continue
+        for i, f in enumerate(m.group(1).split(",")):
+            inf, rt, cl, busy, bad = f.split("/")
+            if int(cl) > 1:
+                ctx.report(f"c09loop: forwarder {i} closed {cl} times", {"op": op, "impl": im, "history": list(hist)})
+            elif int(cl) >= 1 and int(busy) > 0:
+                ctx.report(f"c09loop: forwarder {i} closed while {busy} upstream exchange(s) were running on it",
+                           {"op": op, "impl": im, "history": list(hist)})
+            elif int(bad) > 0:
+                ctx.report(f"c09loop: an upstream exchange was started on forwarder {i} after its Close()",
+                           {"op": op, "impl": im, "history": list(hist)})
 
 
 harness_crashes = []
@@ -218,7 +296,7 @@ def run(ctx):
         "sync/atomic, sync.Once, sync.Map, x/sync/singleflight, channels behave as linearizable objects (the models' atomic steps)",
         "miekg/dns Pack/Unpack round-trip on the messages used; Msg.Copy is a deep copy",
         "fake upstreams: c09ScriptFwd honours DoUDP's contract (TC=1 => ErrDNSTruncated) which stream c09udp ties to the real DoUDP; a fake exchange entered with a dead context fails",
-        "forwardWithDialArg / getOrCreateDnsForwarder (incl. the creation race) and the whole UDP packet-send path are tied by oracles on the implementation only, not by a Lean model",
+        "the whole UDP packet-send path is tied by oracles on the implementation only, not by a Lean model (forwardWithDialArg / getOrCreateDnsForwarder incl. the creation race: Lean model `Loop`, stream c09loop)",
         "testing/synctest virtual time (timeouts of 5 s / 8 s pass without wall-clock waiting)",
         "the UDP packet-send path is exercised with a pre-injected loopback Anyfrom socket and real time (oracle on id/question only, races sought by crowds of coalesced waiters, not by schedule control)",
     ]
@@ -268,19 +346,34 @@ def run(ctx):
             oracle_fwd(ctx, lo, li, name)
         if name == "c09pipe":
             oracle_pipe(ctx, lo, li)
+        if name == "c09loop":
+            oracle_loop(ctx, lo, li)
         for op, im in zip(lo, li):
             if ("crash:" in im) and not op.startswith("P harness"):
                 ctx.report(f"real code panicked: {im}", {"stream": name, "op": op, "impl": im})
         mism = ctx.diff_streams(ops, impl, model, name)
         mism = [m for m in mism if not m[1].startswith("P harness")]
-        for ln, op, im, mo in mism[:6]:
+        shown = keyed_shown = 0
+        for ln, op, im, mo in mism:
+            if shown >= 6:
+                break
             # context: the history since the last reset
             start = max(0, ln - 1)
             while start > 0 and " reset" not in lo[start][:12]:
                 start -= 1
-            ctx.report(f"implementation differs from proved model ({name} line {ln}): op `{op}` impl `{im}` model `{mo}`",
-                       {"stream": name, "line": ln, "op": op, "impl": im, "model": mo,
-                        "history": lo[start:ln], "replay": "VERIF_SEED=%d ./check C09 %s" % (ctx.seed, ctx.tier)})
+            key = qless_key(lo[start:start + 1]) if name == "c09ctl" else None
+            if key is None:
+                shown += 1
+            else:
+                # lines of a history with a question-less query: the (listed) finding; they do not use up the budget
+                # of reported mismatches
+                keyed_shown += 1
+                if keyed_shown > 3:
+                    continue
+            report(ctx, f"implementation differs from proved model ({name} line {ln}): op `{op}` impl `{im}` model `{mo}`",
+                   {"stream": name, "line": ln, "op": op, "impl": im, "model": mo,
+                    "history": lo[start:ln], "replay": "VERIF_SEED=%d ./check C09 %s" % (ctx.seed, ctx.tier)},
+                   key=key)
         n_inc = sum(1 for op in lo if op.startswith("X inconclusive"))
         if n_inc:
             ctx.say(f"NOTE {name}: {n_inc} attempt(s) at a history abandoned (budget expired) and retried")
@@ -323,7 +416,7 @@ def run(ctx):
     for name, m in fl["lines"].items():
         if name in lines and lines[name] < m:
             short.append(f"{name}: {lines[name]} op lines compared, floor {m}")
-        if name not in lines and not (name in ("c09sched", "c09pipe") and not sched_bin):
+        if name not in lines and not (name in ("c09sched", "c09pipe", "c09loop") and not sched_bin):
             short.append(f"{name}: stream did not run")
     for name, cs in fl["counters"].items():
         for k, m in cs.items():
@@ -364,6 +457,7 @@ def run(ctx):
 def _finish(ctx, total, distinct):
     return ctx.finish(
         rule="one op = one line of a history (U: push/fwd on a pooled UDP socket; F: a call or an atomic step of the forwarder entry; "
-             "C: arrive/refuse/resolve/wake/evict of a client of the controller; P: an event on a pipelined connection); "
+             "C: arrive/refuse/resolve/wake/evict of a client of the controller; P: an event on a pipelined connection; "
+             "L: one park-to-park segment of a goroutine in forwardWithDialArg / reset / idle eviction); "
              "distinct_nontrivial counts distinct non-reset op lines per stream",
         evaluations=total, distinct=len(distinct))
